@@ -42,7 +42,7 @@ def EStep.eval : EStep → List Val → List Val
   | .mapBatches n f, rows => (batches (max n 1) rows).flatMap f
   | .mapValuesBatches n f, rows =>
       (batches (max n 1) rows).flatMap
-        (fun c => List.zipWith (fun r o => .pair r.key o) c (f (c.map Val.value)))
+        (fun c => rekeyChunk c (f (c.map Val.value)))
 
 /-- the independent list interpretation: the steps one after another, in program order -/
 def interp (steps : List EStep) (xs : List Val) : List Val :=
